@@ -13,8 +13,27 @@ fn get_checksums_file_path(target: &TargetMetadata) -> PathBuf {
 
 pub async fn read_saved_target_env_state(target: &TargetMetadata) -> Option<TargetEnvState> {
     let file_path = get_checksums_file_path(target);
-    if !&file_path.exists().await {
-        return None;
+    match file_path.metadata().await {
+        Err(_) => return None,
+        // Only a regular file can hold a record. Anything else is dropped without being opened
+        // (opening a named pipe that nobody writes to would never return).
+        Ok(metadata) if !metadata.is_file() => {
+            log::debug!(
+                "{} - Dropping {}: not a checksums file",
+                target,
+                file_path.display()
+            );
+            if let Err(e) = delete_saved_env_state(target).await {
+                log::error!(
+                    "{} - Failed to drop {} (Error: {})",
+                    target,
+                    file_path.display(),
+                    e
+                )
+            }
+            return None;
+        }
+        Ok(_) => {}
     }
 
     let result = {
